@@ -250,24 +250,32 @@ def gen_stream(ch):
     defs = []
     elems_all, seqs_all = [], []
     pending, forced_next, used_outer = {}, [], set()       # forward references between definition messages
+    redefined_in_seq = set()
     for k in range(n_defs):
         only_redefine = bool(k) and ch.bool(1, 2)
+        b_only = False          # a message with Table B entries only that re-defines a member of an earlier sequence
         b = [] if only_redefine else gen_elements(ch, used, ch.int(1, 5))
         if k and (only_redefine or ch.bool(1, 2)) and elems_all:
             # re-define ids of an earlier definition message with other attributes (a message that mentions
             # no new id at all when only_redefine)
             for _ in range(ch.int(1, 2)):
-                old = ch.choice(defs[ch.int(0, k - 1)].b)
+                old = ch.choice([x for td in defs[:k] for x in td.b])
+                # preferably an element that a sequence defined earlier contains (the sequence must follow the re-definition)
+                in_seq = [x for td in defs[:k] for x in td.b if any(x[0] in sq[2] for t2 in defs[:k] for sq in t2.d)]
+                if in_seq and ch.bool(2, 3):
+                    old = ch.choice(in_seq)
+                    redefined_in_seq.add(old[0])
+                    b_only = only_redefine
                 nb = gen_elements(ch, set(), 1)[0]
                 if old[0] not in [x[0] for x in b]:
                     b.append((old[0],) + nb[1:])
-        d_only = bool(k) and bool(elems_all) and ch.bool(1, 4)
+        d_only = bool(k) and bool(elems_all) and not b_only and ch.bool(1, 4)
         if d_only:
             b = []           # a dictionary message that adds sequences over elements defined earlier: no Table B entry at all
         elems_all += [x[0] for x in b if x[0] not in elems_all]
         d, reponly = gen_sequences(ch, used, elems_all, [s for s in seqs_all], 0 if only_redefine else ch.int(0, 4))
         REPONLY_ALL.update(reponly)
-        if k and ch.bool(1, 3) and seqs_all:
+        if k and not b_only and ch.bool(1, 3) and seqs_all:
             cand = [s for s in seqs_all if s not in REPONLY_ALL]
             if cand:
                 sid = ch.choice(cand)
@@ -318,6 +326,12 @@ def gen_stream(ch):
                 # the first data message after the later definition uses the sequence that had to wait for it
                 used_outer.add(ready[0])
                 ids = [ready[0], ch.choice(known_e)]
+            elif k and redefined_in_seq and ch.bool(2, 3):
+                # a sequence defined earlier that contains an element re-defined since
+                cands = [sq[0] for td in defs[:k + 1] for sq in td.d if set(sq[2]) & redefined_in_seq and sq[0] in known_s
+                         and sq[0] not in REPONLY_ALL]
+                if cands:
+                    ids = [ch.choice(cands)]
             elif k and datas and ch.bool(1, 2):
                 # the template of an earlier data message again, now under the newer definitions
                 ids = list(ch.choice(datas).ids)
@@ -518,7 +532,7 @@ def run(tier, seed):
                        'every stream runs in a forked child of a process that never called into the library (definitions are process-global)']
     workers = runner.tier_workers(tier)
     std.replay_files(rep, PID, check_stream, StreamCase.from_json)
-    n = 300 if tier == 'quick' else 8000
+    n = 400 if tier == 'quick' else 10000
     runner.run_generated(rep, gen_stream, check_stream, n, workers, shrink_s=40 if tier == 'quick' else 200)
     rep.required_classes = ['nonzero_scale_or_reference', 'negative_reference', 'sequence_with_replication', 'replication_only_sequence',
                             'redefinition', 'several_definition_messages', 'compressed_data', 'definition_message_without_new_ids',
